@@ -164,8 +164,9 @@ pub fn colors() -> DocSpec {
 /// stream lengths as references, predictors, LZW, images with CCITT / DCT parameters
 pub fn streams() -> DocSpec {
     let mut b = Builder::new();
-    // 2 rows of 3 bytes, PNG "None" predictor rows
-    let png_rows = vec![0u8, 1, 2, 3, 0, 4, 5, 6];
+    // 2 rows of 3 bytes, PNG "None" predictor rows; every byte is also a valid row tag (0..=4), so
+    // that a hostile geometry is followed to the last row instead of failing on the first tag
+    let png_rows = vec![0u8, 1, 2, 3, 0, 4, 1, 2];
     let len_obj = b.reserve();
     let s1 = b.reserve();
     let data1 = zlib_stored(&png_rows);
